@@ -165,6 +165,13 @@ def stack_ref(x, num_vectors, time_axis, feat_axis, pad_mode):
         nT = T // n
     else:
         nT = (T + n - 1) // n
+    if pad_mode not in (None, "edge", "constant") and nT * n > T:
+        # any other mode of numpy.pad: the documented behaviour is "the time axis is padded on the right ... numpy.pad",
+        # i.e. the mode sees the whole sequence of every vector (wrap, mean, reflect ... depend on earlier frames)
+        if T < 1:
+            raise ValueError("cannot pad an empty time axis")
+        xm = np.pad(xm, [(0, nT * n - T)] + [(0, 0)] * (xm.ndim - 1), pad_mode)
+        T = nT * n
     out = np.zeros((nT, n * F) + xm.shape[2:], dtype=x.dtype)
     for t in range(nT):
         for i in range(n):
